@@ -1,7 +1,7 @@
 """C02 — what a reader returns does not depend on how the caller consumes it."""
 from e2 import E2
 FILES = ['src/reader/column_reader.c', 'src/reader/page_reader.c', 'src/reader/batch_reader.c', 'src/reader/file_reader.c', 'src/metadata/schema.c']
-BUDGET = {'quick': 1200, 'thorough': 3600}
+BUDGET = {'quick': 840, 'thorough': 3600}
 H = 'harness/e2/c02_hist.c'
 STUBS = ['stdio / mmap: in-memory model file system', 'cpuid: no SIMD features (scalar dispatch)', 'file content produced in the same run by the real writer (concrete)']
 TYPES = {0: 'INT32 OPTIONAL', 1: 'INT64 REQUIRED', 2: 'BYTE_ARRAY OPTIONAL', 3: 'BOOLEAN OPTIONAL', 4: 'DOUBLE OPTIONAL'}
@@ -23,4 +23,10 @@ def obligations(tier):
             o.append(E2('batch/%s/%s' % (TYPES[ct].replace(' ', '-'), MODES[om]), H,
                         defines=['-DMODE=2', '-DCOLTYPE=%d' % ct, '-DOPENMODE=%d' % om, '-DN=9', '-DBATCH=3'], all_lib=True, timeout=1100, stubs=STUBS, fork_max=16,
                         bounds='2 columns (%s + INT32 REQUIRED), 9 rows in 3 pages; every batch_size 1..10 (symbolic) x 3 projections (all, by index reversed, by name); open via %s' % (TYPES[ct], MODES[om])))
+    # pages of different sizes (1,2,3,2,1): batch boundaries inside pages, batch size equal to a partly consumed page
+    for ct in ([1, 0] if q else [1, 0, 2, 4]):
+        for om in (0, 2):
+            o.append(E2('batch-uneven-pages/%s/%s' % (TYPES[ct].replace(' ', '-'), MODES[om]), H,
+                        defines=['-DMODE=2', '-DCOLTYPE=%d' % ct, '-DOPENMODE=%d' % om, '-DN=9', '-DPAGEPATTERN=1,2,3,2,1'], all_lib=True, timeout=1100, stubs=STUBS, fork_max=16,
+                        bounds='2 columns (%s + INT32 REQUIRED), 9 rows in pages of 1,2,3,2,1 rows; every batch_size 1..10 (symbolic) x 3 projections; open via %s' % (TYPES[ct], MODES[om])))
     return o
